@@ -8,6 +8,8 @@
      T <op> <a> <b> <c>    | <ctx>*
      C <op> <a> <target>   | <ctx>*
      X <ctx> <t>                        context alone: "<admits> <ctx_ok>"
+     S <kind> <t>*                      statement cell, kind = REPEAT WHILE IF LISTCOUNT LISTLIT INDEXASSIGN FOR FORSTEP
+                                        FORRANGE: "<tc_stmt 0|1> <verdict R O I L>"
 
    <ctx> ::= VI | CO | EL | IN:<t> | AS:<t> | AR:<t> | RT:<t>
    answer: "<tc: type index or -> <cell_ok 0|1> <lowering: E | <wt 0|1>> <verdict per ctx: R O I L>*" *)
@@ -52,5 +54,18 @@ let () =
     | ["X"; x; t] ->
       let c = ctx_of x and t = ty_of t in
       Printf.printf "%d %d\n" (if ctx_admits c t then 1 else 0) (if ctx_ok c t then 1 else 0)
+    | "S" :: kind :: ts ->
+      let st = match kind, List.map ty_of ts with
+        | "REPEAT", [a] -> SRepeat a
+        | "WHILE", [a] -> SWhile a
+        | "IF", [a] -> SIf a
+        | "LISTCOUNT", [a; b] -> SListCount (a, b)
+        | "LISTLIT", [a; b] -> SListLit (a, b)
+        | "INDEXASSIGN", [a; b; c] -> SIndexAssign (a, b, c)
+        | "FOR", [a; b; c] -> SFor (a, b, c)
+        | "FORSTEP", [a; b; c; d] -> SForStep (a, b, c, d)
+        | "FORRANGE", [a; b] -> SForRange (a, b)
+        | _ -> failwith ("stmt " ^ line) in
+      Printf.printf "%d %s\n" (if tc_stmt st then 1 else 0) (show_verdict (verdict_stmt st))
     | [] -> ()
     | _ -> print_endline "?") (read_lines stdin)
